@@ -116,3 +116,41 @@ func vfhC13RotatedRectShapes() {
 	}
 	vfReach("end")
 }
+
+func init() {
+	vfHarnesses["C13_rotated_rect_scale"] = vfhC13RotatedRectScale
+}
+
+// The rotated rectangles do not depend on the unit of length: scaling the
+// input by a power of two (exact in float64) scales the rectangle with it, so
+// its area scales by the square - the choice among the candidate rectangles
+// must not involve an absolute tolerance.
+func vfhC13RotatedRectScale() {
+	shapes := []string{
+		"MULTIPOINT(0 0,4 0,6 3,2 3)",
+		"MULTIPOINT(0 0,2 1,3 3,1 2,1 1)",
+		"MULTIPOINT(0 0,5 1,6 4,2 6,-1 3)",
+		"LINESTRING(0 0,3 1,7 0,9 5)",
+		"POLYGON((0 0,6 0,8 3,3 7,-2 4,0 0))",
+		"POLYGON((0 0,4 5,0 10,0 0))",
+		"POLYGON((1 0,9 2,8 6,0 4,1 0))",
+		"MULTIPOINT(0 0,10 1,11 3,1 2,5 9)",
+	}
+	g, err := UnmarshalWKT(shapes[vfInt("shape", 0, len(shapes)-1)])
+	vfAssert(err == nil, "operand parses")
+	s := []float64{1.0 / (1 << 20), 1.0 / (1 << 30), 1 << 20}[vfInt("scale", 0, 2)]
+	gs := g.TransformXY(func(p XY) XY { return XY{p.X * s, p.Y * s} })
+	width := vfBool("width")
+	var r, rs Geometry
+	if width {
+		r, rs = RotatedMinimumWidthBoundingRectangle(g), RotatedMinimumWidthBoundingRectangle(gs)
+	} else {
+		r, rs = RotatedMinimumAreaBoundingRectangle(g), RotatedMinimumAreaBoundingRectangle(gs)
+	}
+	vfAssert(r.IsPolygon() && rs.IsPolygon(), "both are rectangles")
+	want := r.Area() * s * s
+	vfAssert(math.Abs(rs.Area()-want) <= 1e-9*want, "the rectangle of the scaled input is the scaled rectangle")
+	// and it is not larger than the axis-parallel envelope at that scale either
+	vfAssert(width || rs.Area() <= gs.Envelope().Area()*(1+1e-9), "not larger than the envelope")
+	vfReach("end")
+}
